@@ -418,6 +418,9 @@ func C06(p *engine.Prog, r *engine.Report) {
 	// ---------------- R6: no transaction enters the chain unapplied
 	processTxsExhaustiveRule(p, r, "C06-R6")
 	r.Floor("C06-R6", 1, "processTxs")
+	// ---------------- R7: a chain restarted from a predefined state keeps (nonce, epoch) of every account
+	predefinedImportRule(p, r, "C06-R7", map[string]bool{"ProtoPredefinedState_Account": true})
+	r.Floor("C06-R7", 4, "Address, Balance, Nonce, Epoch, ContractData")
 }
 
 func okNonceSource(v ssa.Value, isAccNonce, isAccEpoch, isGlobalEpoch func(ssa.Value) bool) bool {
